@@ -37,8 +37,11 @@ from typing import List, Optional, Tuple, Dict
 
 
 class H:
-    def __init__(self, name, src, timeout=60, prelude="", key=None, expect="confirm", note=""):
+    def __init__(self, name, src, timeout=60, prelude="", key=None, expect="confirm", note="", probe=None):
         self.name, self.src, self.timeout, self.prelude = name, src, timeout, prelude
+        # optional concrete call sequence (strings), executed in ONE interpreter when CrossHair's own verdict is unusable
+        # because the code under test keeps state between executions (non-reproducible counterexample, NotDeterministic)
+        self.probe = probe or []
         self.key = key or name
         self.expect = expect
         self.note = note
@@ -109,6 +112,33 @@ def replay_call(h, call):
     return m.group(1)
 
 
+def replay_sequence(h, calls):
+    """Execute several harness calls one after the other in ONE fresh interpreter (a history of operations).
+    -> (index of the first call that does not return true, its result) or (None, 'true')"""
+    body = "".join(f"\ntry:\n    __r = {c}\n    print('REPLAY-RESULT', {i}, 'true' if __r else 'false')\nexcept Exception as __e:\n    print('REPLAY-RESULT', {i}, 'exception:' + type(__e).__name__ + ': ' + str(__e)[:200])\n" for i, c in enumerate(calls))
+    try:
+        p = subprocess.run([PY, "-c", PRELUDE + h.prelude + "\n\n" + h.src + "\n" + body], capture_output=True, text=True, timeout=300)
+    except subprocess.TimeoutExpired:
+        return None, "replay-error: timeout"
+    got = re.findall(r"REPLAY-RESULT (\d+) (.*)", p.stdout)
+    if len(got) != len(calls):
+        return None, "replay-error: " + (p.stderr.strip()[-300:] or p.stdout[-300:])
+    for i, r in got:
+        if r != "true":
+            return int(i), r
+    return None, "true"
+
+
+def _history_probe(run, h, calls, why):
+    """-> True when a concrete history of harness calls in one process exposes a failing call (reported as a violation)"""
+    i, r = replay_sequence(h, calls)
+    if i is None:
+        return False
+    run.count("disagreements_replayed")
+    run.failure(h.key, f"harness={h.name} ({why}) history of {len(calls)} calls in one process: call #{i + 1} {calls[i]} -> {r}; every call of the history returns true when run first in a fresh process", {"kind": "ch", "harness": h.name, "src": h.src, "prelude": h.prelude, "calls": calls, "call": calls[i], "replay": r})
+    return True
+
+
 def run_harnesses(run, harnesses, procs=16, twins=True):
     """Feed results into the Run collector. Returns list of result dicts."""
     d = tempfile.mkdtemp(prefix="jasmverif_ch_")
@@ -147,7 +177,9 @@ def run_harnesses(run, harnesses, procs=16, twins=True):
                 rep = replay_call(h, r["call"])
                 r["replay"] = rep
                 if rep == "true":
-                    run.harness_error(f"harness {h.name}: counterexample {r['call']} did not reproduce concretely (returns true)")
+                    # the code under test kept state between CrossHair's executions: look for a concrete history
+                    if not (_history_probe(run, h, [r["call"]] * 3, "non-reproducible counterexample, repeated") or (h.probe and _history_probe(run, h, h.probe + [r["call"]], "non-reproducible counterexample, after the probe sequence"))):
+                        run.harness_error(f"harness {h.name}: counterexample {r['call']} did not reproduce concretely (returns true)")
                 elif rep.startswith("replay-error"):
                     run.harness_error(f"harness {h.name}: counterexample {r['call']} could not be replayed: {rep}")
                 else:
@@ -158,7 +190,8 @@ def run_harnesses(run, harnesses, procs=16, twins=True):
             elif r["status"] == "vacuous":
                 run.harness_error(f"harness {h.name}: unable to meet precondition")
             else:
-                run.harness_error(f"harness {h.name}: crosshair output not understood: {r['raw'][-300:]}")
+                if not ("NotDeterministic" in r["raw"] and h.probe and _history_probe(run, h, h.probe + h.probe, "CrossHair reports NotDeterministic")):
+                    run.harness_error(f"harness {h.name}: crosshair output not understood: {r['raw'][-300:]}")
             if len(run.samples) < 10:
                 run.sample({"harness": h.name, "status": r["status"], "wall_s": round(r["wall"], 1), "contract": re.findall(r"(pre:.*|post:.*)", h.src), "note": h.note})
     finally:
@@ -168,6 +201,10 @@ def run_harnesses(run, harnesses, procs=16, twins=True):
 
 def replay_record(rec):
     h = H(rec["harness"], rec["src"], prelude=rec.get("prelude", ""))
+    if rec.get("calls"):
+        i, rep = replay_sequence(h, rec["calls"])
+        print(f"harness {rec['harness']}: history {rec['calls']} -> " + (f"call #{i + 1} {rep}" if i is not None else rep))
+        return 0 if rep == "true" else 1
     rep = replay_call(h, rec["call"])
     print(f"harness {rec['harness']}: {rec['call']} -> {rep}")
     return 0 if rep == "true" else 1
